@@ -14,6 +14,7 @@ import (
 	"net"
 	"os"
 	"runtime"
+	"sync"
 	"syscall"
 	"time"
 	"unsafe"
@@ -55,6 +56,9 @@ type poller struct {
 	pollType string // listener or io poller
 
 	shutdown bool // state
+
+	// serializes the registration of an accepted connection with stop().
+	acceptMux sync.Mutex
 
 	// whether poller is used for listener.
 	isListener bool
@@ -183,13 +187,23 @@ func (p *poller) acceptorLoop() {
 	for !p.shutdown {
 		conn, err := p.listener.Accept()
 		if err == nil {
+			// Once stop() has returned no further connection is registered:
+			// Engine.Stop relies on that when it closes the existing ones.
+			p.acceptMux.Lock()
+			if p.shutdown {
+				p.acceptMux.Unlock()
+				_ = conn.Close()
+				continue
+			}
 			var c *Conn
 			c, err = NBConn(conn)
 			if err != nil {
+				p.acceptMux.Unlock()
 				_ = conn.Close()
 				continue
 			}
 			err = p.g.pollers[c.Hash()%len(p.g.pollers)].addConn(c)
+			p.acceptMux.Unlock()
 			if err != nil {
 				logging.Error("NBIO[%v][%v_%v] addConn [fd: %v] failed: %v",
 					p.g.Name,
@@ -354,7 +368,9 @@ func (p *poller) readWriteLoop() {
 //go:norace
 func (p *poller) stop() {
 	logging.Debug("NBIO[%v][%v_%v] stop...", p.g.Name, p.pollType, p.index)
+	p.acceptMux.Lock()
 	p.shutdown = true
+	p.acceptMux.Unlock()
 	if p.listener != nil {
 		_ = p.listener.Close()
 		if p.unixSockAddr != "" {
